@@ -6,6 +6,7 @@ import (
 	"io"
 	"math"
 	"os"
+	"sort"
 	"sync"
 	"time"
 
@@ -426,7 +427,6 @@ func (fs *fsMutable) ReadDir(
 	t0 := fs.opStart(op)
 	defer fs.opEnd(t0, op, err)
 
-	offset := int(op.Offset)
 	iNode := op.Inode
 
 	fs.lock.Lock()
@@ -438,18 +438,19 @@ func (fs *fsMutable) ReadDir(
 		return jfuse.ENOENT
 	}
 
-	if offset > len(children) {
-		return
-	}
-
-	var i uint64 = 1
-	for _, c := range children {
-		i++
-		if i < uint64(offset) {
-			continue
+	// The kernel resumes a listing after the entry whose offset it received last: entries need an order that is
+	// stable across calls (map iteration is not) and offsets that identify an entry. Use the inode number for both.
+	ids := make([]fuseops.InodeID, 0, len(children))
+	for id := range children {
+		if uint64(id) > uint64(op.Offset) {
+			ids = append(ids, id)
 		}
-		child := *c
-		child.Offset = fuseops.DirOffset(i) // This is where dirOffset matters..
+	}
+	sort.Slice(ids, func(i, j int) bool { return ids[i] < ids[j] })
+
+	for _, id := range ids {
+		child := *children[id]
+		child.Offset = fuseops.DirOffset(id) // This is where dirOffset matters..
 		n := fuseutil.WriteDirent(op.Dst[op.BytesRead:], child)
 		if n == 0 {
 			break
